@@ -1,11 +1,20 @@
 import MuscleModel.Engines.Common
 import MuscleModel.Reflector.Handlers
+import MuscleModel.Reflector.Clone
 
 /-!
 Engine `srv` (C04 C05 C06 C07 C13): interprets the op lines of `harness/srv.cpp` on the reflector model
 and prints the same canonical digests.  Ops outside the modelled command subset (quiet flags, `cut`,
 `block`, `raw`, `jettison`, explicit `get`, SETDATA flags other than ADDTOINDEX) make the rest of the
 case unpredicted (`?`): those streams are decided by the direct oracles alone.
+
+Server-side subtree calls (model: `Reflector/Clone.lean`), made by the harness directly on the session in <slot>, followed by
+one `PushSubscriptionMessages` (refused inside a batch; `nosrc` when the source node does not exist):
+  `clone <slot> <flags 0|8> <source node path, absolute> <dest path relative to the session, plain names>`  CloneDataNodeSubtree
+  `save <slot> <source node path, absolute> <maxDepth>`                                                    SaveNodeTreeToMessage
+  `restore <slot> <flags 0|8> <dest path relative to the session, plain names> <maxDepth>`                  RestoreNodeTreeFromMessage
+  `trees <slot> <maxDepth> <key>`   the client command PR_COMMAND_GETDATATREES (its reply is the delivery `TREES[<path>=<saved tree> …]`)
+      of the Message of the last `save` of the case (any slot's); 8 = SETDATANODE_FLAG_ADDTOINDEX for the top node.
 -/
 
 namespace Muscle.Eng.SrvEngine
@@ -30,6 +39,7 @@ structure St where
   slots : List (Nat × Nat) := []          -- slot → session id
   batch : List (Nat × List Cmd) := []     -- open batches
   poisoned : Bool := false
+  saved : Option Node := none             -- the Message of the last `save` (SaveNodeTreeToMessage), for `restore`
 
 def sidOf (st : St) (slot : Nat) : Option Nat := (st.slots.find? (fun (s, _) => s = slot)).map (·.2)
 
@@ -150,6 +160,61 @@ def parseCmd : List String → Option Cmd
   | ["ping", _, tag] => do let t ← nat? tag; pure (.ping t)
   | _ => none
 
+/-- the result of a server-side subtree call: the state after one `PushSubscriptionMessages`, and `ok` / `err`; when the model ran
+    out of fuel the rest of the case is unpredicted -/
+def subtreeOp (st : St) (r : Server × CStat) : St × String :=
+  if r.2 = .fuel then ({ st with poisoned := true }, "?") else ({ st with sv := pushAll r.1 }, r.2.text)
+
+/-- the ops `clone` / `save` / `restore` of session `sid` in slot `sl` (server-side subtree calls, see the header) -/
+def subtreeStep (st : St) (sl sid : Nat) (op : String) (toks : List String) : St × String :=
+  if op = "clone" then
+    match toks with
+    | [_, _, fl, s, d] =>
+      match nat? fl, (bytesOfTok s).bind absNames?, (bytesOfTok d).bind relClauses? with
+      | some f, some src, some dest =>
+        if (f ≠ 0 && f ≠ 8) || st.batch.any (fun (s, _) => s = sl) then (st, "bad-op") else
+        if (getNode st.sv src).isNone then (st, "nosrc") else
+        subtreeOp st (cloneDataNodeSubtree st.sv sid src dest (f = 8))
+      | _, _, _ => (st, "bad-op")
+    | _ => (st, "bad-op")
+  else if op = "save" then
+    match toks with
+    | [_, _, s, md] =>
+      match (bytesOfTok s).bind absNames?, nat? md with
+      | some src, some md =>
+        if md > Muscle.Gen.muscleNoLimit || st.batch.any (fun (s, _) => s = sl) then (st, "bad-op") else
+        match getNode st.sv src with
+        | none => (st, "nosrc")
+        | some n =>
+          ({ st with saved := some (saveTree fuelDepth md n) }, "saved " ++ savedDump (fuelDepth + 2) (saveTree fuelDepth md n))
+      | _, _ => (st, "bad-op")
+    | _ => (st, "bad-op")
+  else if op = "restore" then
+    match toks with
+    | [_, _, fl, d, md] =>
+      match nat? fl, (bytesOfTok d).bind relClauses?, nat? md, st.saved with
+      | some f, some dest, some md, some t =>
+        if (f ≠ 0 && f ≠ 8) || md > Muscle.Gen.muscleNoLimit || st.batch.any (fun (s, _) => s = sl) then (st, "bad-op") else
+        subtreeOp st (restoreNodeTree st.sv sid t dest (f = 8) md)
+      | _, _, _, _ => (st, "bad-op")
+    | _ => (st, "bad-op")
+  else if op = "trees" then
+    -- PR_COMMAND_GETDATATREES with one key: `GetSubtreesCallback` on every matching node (the traversal and the own-node rule are those
+    -- of GETDATA), the reply goes out at once, then the push
+    match toks with
+    | [_, _, md, k] =>
+      match nat? md, bytesOfTok k, st.sv.sess? sid with
+      | some md, some k, some s =>
+        if (md ≥ 2147483648 && md ≠ Muscle.Gen.muscleNoLimit) || st.batch.any (fun (s, _) => s = sl) then (st, "bad-op") else
+        ({ st with sv := pushAll (st.sv.deliver sid ("TREES[" ++ String.join
+            ((travGlobal st.sv (pmOfKeys [(k, none)] (some defaultPrefix)) true (getDataCb s)).map (fun v =>
+              match getNode st.sv v with
+              | some n => hexS (pathString v) ++ "=" ++ savedDump (fuelDepth + 2) (saveTree fuelDepth md n) ++ " "
+              | none => "")) ++ "]")) }, "ok")
+      | _, _, _ => (st, "bad-op")
+    | _ => (st, "bad-op")
+  else (st, "bad-op")
+
 def step (st : St) (toks : List String) : St × String :=
   match toks with
   | ["case", n] => ({}, "case " ++ n)
@@ -197,6 +262,7 @@ def step (st : St) (toks : List String) : St × String :=
               ({ st with sv := pushAll (vs.foldl (fun sv v => runCmd sv sid (.set p v false)) st.sv) }, "ok")
             | _, _ => (st, "bad-op")
           | _ => (st, "bad-op")
+        else if op = "clone" || op = "save" || op = "restore" || op = "trees" then subtreeStep st sl sid op toks
         else if op = "batch" then
           match toks with
           | [_, _, "begin"] => if (st.batch.any (fun (s, _) => s = sl)) then (st, "bad-op") else ({ st with batch := st.batch ++ [(sl, [])] }, "ok")
